@@ -533,9 +533,15 @@ func report(id, tier string, seed int, outs []shardOut, buildS, wall float64) in
 		fmt.Fprintf(os.Stderr, "INTERNAL property=%s: nothing was explored\n", id)
 		return 3
 	}
-	os.MkdirAll(filepath.Join(verifDir, "evidence"), 0o755)
+	// evidence/ describes /repo itself; a run against another tree (VERIF_REPO, used to try the checks
+	// on seeded changes) writes its evidence under .work/ instead
+	evDir := filepath.Join(verifDir, "evidence")
+	if repoDir() != "/repo" {
+		evDir = filepath.Join(verifDir, ".work", "evidence-other-tree")
+	}
+	os.MkdirAll(evDir, 0o755)
 	b, _ := json.MarshalIndent(ev, "", " ")
-	if err := os.WriteFile(filepath.Join(verifDir, "evidence", id+".json"), b, 0o644); err != nil {
+	if err := os.WriteFile(filepath.Join(evDir, id+".json"), b, 0o644); err != nil {
 		fmt.Fprintln(os.Stderr, err)
 		return 3
 	}
